@@ -380,10 +380,17 @@ def regenerate():
     I.append('/-- accesses to the shared block cache in mmc.c: (line, inside `omp critical(mmc)`) -/')
     I.append('def mmcAccesses : List (Nat × Bool) := [' + ', '.join('(%d, %s)' % (l, 'true' if c else 'false') for l, c in mmc) + ']')
     I.append('end M4ri.Gen')
+    # the clang-AST translator of whole scalar functions / integer slices / word-level kernels (Gen/CFuns.lean)
+    from . import ctrans
+    try:
+        cinfo = ctrans.regenerate()
+    except ctrans.CTransError as e:
+        raise TranslateError('ctrans: %s' % e)
     changed = write_if_changed(os.path.join(GEN, 'Params.lean'), '\n'.join(L) + '\n')
     changed = write_if_changed(os.path.join(GEN, 'Inventory.lean'), '\n'.join(I) + '\n') or changed
     return dict(changed=changed, constants=consts, formulas=forms, alloc_sites=len(inv),
-                unchecked_sites=[s for s in inv if s[3] == 'unchecked'], omp_pragmas=len(omp), mmc_accesses=len(mmc), mmc_unprotected=[l for l, c in mmc if not c], omp_loops=['%s:%d var=%s private=%s outer-written=%s' % l for l in loops], obligations=0)
+                unchecked_sites=[s for s in inv if s[3] == 'unchecked'], omp_pragmas=len(omp), mmc_accesses=len(mmc), mmc_unprotected=[l for l, c in mmc if not c], omp_loops=['%s:%d var=%s private=%s outer-written=%s' % l for l in loops], obligations=0,
+                c_functions_translated=['%s:%s' % (m['file'], m['function']) + (' (slice)' if m['slice'] else '') for m in cinfo['functions']])
 
 
 if __name__ == '__main__':
